@@ -17,9 +17,10 @@
 from __future__ import annotations
 
 from collections import deque
+from itertools import product
 
 from ..lang import Atomic, Constant, Operator, Predicate, Predicated
-from ..models import ValueCPL
+from ..models import GlobalAccess, ValueCPL
 from ..proof import Target, adds, rules, swnode
 from ..proof.helpers import FilterHelper, PredNodes
 from ..tools import group, substitute
@@ -50,6 +51,7 @@ class Model(LogicType.Model[Meta.values]):
         self._check_not_finished()
         self._complete_frames()
         for w, frame in self.frames.items():
+            self._close_identity(w)
             for pred in deque(frame.predicates):
                 self._agument_extension_with_identicals(pred, w)
             self._ensure_self_identity(w)
@@ -72,17 +74,28 @@ class Model(LogicType.Model[Meta.values]):
         for params in map(group, self.constants):
             interp[params] = 'T'
 
+    def _close_identity(self, w):
+        if not len(self.constants):
+            return
+        interp = self.frames[w].predicates[Predicate.Identity]
+        # make identity an equivalence relation over the constants
+        rel = GlobalAccess()
+        for c in self.constants:
+            rel[c]
+        rel.addall(interp.having('T'))
+        rel.enforce()
+        for params in rel.flat():
+            interp[params] = 'T'
+
     def _agument_extension_with_identicals(self, pred: Predicate, w):
         interp = self.frames[w].predicates[pred]
-        for c in self.constants:
-            identicals = self._get_identicals(c, w)
-            to_add = set()
-            for params in interp.having('T'):
-                if c in params:
-                    for new_c in identicals:
-                        to_add.add(substitute(params, c, new_c))
-            for params in to_add:
-                interp[params] = 'T'
+        to_add = set()
+        for params in interp.having('T'):
+            # every tuple of constants identical to the members
+            to_add.update(product(*(
+                (c, *self._get_identicals(c, w)) for c in params)))
+        for params in to_add:
+            interp[params] = 'T'
 
     def _get_identicals(self, c: Constant, w=0) -> set[Constant]:
         interp = self.frames[w].predicates[Predicate.Identity]
